@@ -24,6 +24,8 @@ pub struct ThreadPlan {
     pub stall_after: Option<usize>,
     /// stops (returns normally, dropping its views) after this op index
     pub exit_after: Option<usize>,
+    /// function-entry counts at which the thread is preempted wherever it is (instrumented build only)
+    pub preempt_at: Vec<u64>,
 }
 
 #[derive(Clone, Debug, PartialEq)]
@@ -82,6 +84,7 @@ impl SchedPlan {
                                 .set("die_after", opt_json(&t.die_after))
                                 .set("stall_after", opt_json(&t.stall_after))
                                 .set("exit_after", opt_json(&t.exit_after))
+                                .set("preempt_at_function_entry", J::Arr(t.preempt_at.iter().map(|x| J::Int(*x as i64)).collect()))
                         })
                         .collect(),
                 ),
@@ -99,7 +102,8 @@ impl SchedPlan {
             for o in t.arr_of("ops")? {
                 ops.push(Op::from_json(o)?);
             }
-            threads.push(ThreadPlan { ops, die_after: opt_from(t.get("die_after")), stall_after: opt_from(t.get("stall_after")), exit_after: opt_from(t.get("exit_after")) });
+            let preempt_at = t.get("preempt_at_function_entry").and_then(|a| a.as_arr()).map(|a| a.iter().filter_map(|x| x.as_i64()).map(|x| x as u64).collect()).unwrap_or_default();
+            threads.push(ThreadPlan { ops, die_after: opt_from(t.get("die_after")), stall_after: opt_from(t.get("stall_after")), exit_after: opt_from(t.get("exit_after")), preempt_at });
         }
         let mut views_b = vec![];
         for v in j.arr_of("views_b")? {
@@ -208,6 +212,10 @@ impl Refs {
 pub fn is_ctx_op(name: &str) -> bool {
     let n = name.strip_prefix("g1_").or_else(|| name.strip_prefix("g2_")).unwrap_or("");
     matches!(n, "wnaf_bs" | "wnaf_sb" | "wnaf_bs_multi" | "wnaf_sb_multi" | "wnaf_half" | "wnaf_half_b" | "wnaf_poison")
+}
+
+fn o_needs_prepared(op: &Op) -> bool {
+    op.k == "miller"
 }
 
 fn view_key(plan: &SchedPlan, op: &Op) -> String {
@@ -332,7 +340,7 @@ fn ensure_refs(plan: &SchedPlan, refs: &mut Refs, ref_shared: &Shared) {
         // views, the reference copy of the shared tables, nothing else running
         let r = std::thread::scope(|s| {
             s.spawn(|| {
-                let rs = RunShared::new(0);
+                let rs = RunShared::new(0, o_needs_prepared(op));
                 let mut o = op.clone();
                 if is_ctx_op(&o.k) && !o.a.is_empty() {
                     o.a[0] = 0;
@@ -476,7 +484,7 @@ pub fn run_plan(plan: &SchedPlan, shared: &Shared, ref_shared: &Shared, refs: &m
     ensure_refs(plan, refs, ref_shared);
     let n = plan.threads.len();
     let sim = Sim::new(n, plan.yield_mask);
-    let rs = RunShared::new(plan.nshared_ctx);
+    let rs = RunShared::new(plan.nshared_ctx, plan.threads.iter().any(|t| RunShared::needs_prepared(&t.ops)));
     let results: Vec<Mutex<Vec<(Outcome, Vec<Claim>)>>> = (0..n).map(|_| Mutex::new(vec![])).collect();
     let progress: Vec<Mutex<(usize, bool)>> = (0..n).map(|_| Mutex::new((0usize, false))).collect(); // (ops completed, died)
     let yields_total = Mutex::new(0u64);
@@ -496,13 +504,16 @@ pub fn run_plan(plan: &SchedPlan, shared: &Shared, ref_shared: &Shared, refs: &m
                 let yields_total = &yields_total;
                 s.spawn(move || {
                     tok::enter(&sim, i);
+                    crate::mc::set_preempts(tp.preempt_at.clone());
                     if tp.stall_after.is_some() {
                         sim.no_wait[i].store(true, std::sync::atomic::Ordering::SeqCst);
                     }
                     sim.wait_turn(i);
                     let mut died = false;
                     for (oi, op) in tp.ops.iter().enumerate() {
+                        crate::mc::resume();
                         let (outcome, claims) = eval_caught(op, shared, rs, &mut tl);
+                        crate::mc::pause();
                         let harness_died = matches!(outcome, Outcome::HarnessDied);
                         results[i].lock().unwrap().push((outcome, claims));
                         progress[i].lock().unwrap().0 = oi + 1;
@@ -842,6 +853,7 @@ pub fn run_plan(plan: &SchedPlan, shared: &Shared, ref_shared: &Shared, refs: &m
             view_users.entry(view_key(plan, op).split('[').nth(1).unwrap_or("").to_string()).or_default().push(*t);
         } else if kind == "miller" {
             view_users.entry(format!("prep{}", op.arg(2))).or_default().push(*t);
+            cnt.inc("probe_prepared_elements_of_this_scenario_used_in_miller_loop");
         }
     }
     let mut object_histories = vec![];
@@ -878,6 +890,7 @@ pub fn run_plan(plan: &SchedPlan, shared: &Shared, ref_shared: &Shared, refs: &m
     cnt.add("yields_inside_calls", yields_n);
     cnt.add("sync_points_reached", sim.sync_points.load(std::sync::atomic::Ordering::Relaxed));
     cnt.add("threads_found_blocked_on_a_lock", blocked_events);
+    cnt.add("fault_fired_preempted_at_arbitrary_function_entry", sim.forced_preemptions.load(std::sync::atomic::Ordering::Relaxed));
     cnt.add("reads_that_waited_for_another_thread", sim.dependent_waits.load(std::sync::atomic::Ordering::Relaxed));
     dg.u64(ops_run as u64);
     SRun {
@@ -1123,6 +1136,16 @@ pub fn gen_plan(seed: u64, cfg: &GenCfg) -> SchedPlan {
             threads[t].ops.truncate(at + 1);
         }
         _ => {}
+    }
+    // arbitrary preemption (instrumented build only): in half of the runs, one to three threads are
+    // preempted at a function entry chosen log-uniformly among their first 2^22 - wherever that is:
+    // in the middle of a table fill, between two field operations, inside a lazy initialisation
+    if r.chance(1, 2) {
+        for _ in 0..r.range(1, 3) {
+            let t = r.below(threads.len());
+            let e = r.below(23);
+            threads[t].preempt_at.push((1u64 << e) + r.next() % (1u64 << e));
+        }
     }
     let yield_mask = match r.below(10) {
         0..=2 => 0,
